@@ -6,7 +6,7 @@ CONSTANTS
   NP = 1
   Names = {"a"}
   Vals = {1, 2}
-  Acts = {"CreateObject", "AddData", "AddVisual", "Copy", "SetVal", "SetMeta", "Rename", "AddToGroup", "RemoveViaWorkspace", "Close", "Open"}
+  Acts = {"CreateObject", "AddData", "AddVisual", "AddComment", "AddFile", "AddDataRefused", "Copy", "SetVal", "SetMeta", "Rename", "AddToGroup", "RemoveViaWorkspace", "Collect", "DropRef", "Purge", "Close", "Open"}
   Deviations = {"CloseKeepsOrphans"}
   MaxDepth = 5
 CONSTRAINT DepthBound
